@@ -151,8 +151,16 @@ def rule_a(ctx):
             vo = db.origins(sts[0].args()[1], sts[0])
             ok = vo == frozenset([("proj", ("arg", 1), ("f", "stamp"))])
             io = db.origins(sts[0].args()[0], sts[0])
-            ok = ok and any(origin_contains(x, lambda t: t[0] == "proj" and t[2] == ("f", "index")) or True for x in io)
-        ctx.ob("borrow-drop|releases-slot", ok, "dropping the borrow stores the stamp prepared by pop into the slot, unconditionally", sts)
+            good = False
+            for x in io:
+                rt, names = origin_proj_names(x)
+                for nme in names:
+                    if nme[0] == "i" and len(nme) > 1:
+                        lo = db.place_origins({"l": nme[1], "p": []}, sts[0])
+                        if lo == frozenset([("proj", ("arg", 1), ("f", "index"))]):
+                            good = True
+            ok = ok and good
+        ctx.ob("borrow-drop|releases-slot", ok, "dropping the borrow stores the stamp prepared by pop into the slot it was popped from (self.index), unconditionally", sts)
         cells = list(db.calls(WITH_MUT))
         ctx.ob("borrow-drop|vacate-before-release", len(cells) == 1 and bool(sts) and db.dominates(cells[0], sts[0]),
                "the box is vacated before the slot is released", cells + sts)
